@@ -174,9 +174,7 @@ func smallScope(c *vrep.Ctx, prop string) {
 	ts := []float64{0.5, 0.7, 0.8}
 	if prop == "c03" {
 		ts = []float64{0.05, 0.3, 0.5, 0.7, 0.8, 0.9, 1.0}
-		if !c.Thorough() {
-			maxLen = c.ParamInt("maxlen", 6)
-		}
+		maxLen = c.ParamInt("maxlen", c.Pick(6, 8))
 	}
 	if prop == "c07" {
 		ts = []float64{0.8}
@@ -253,7 +251,7 @@ func smallScope(c *vrep.Ctx, prop string) {
 func corpusScale(c *vrep.Ctx, prop string) {
 	t, _ := strconv.ParseFloat(c.Param("t", "0.8"), 64)
 	cl := vEmbeddedCached(t)
-	docs := vDocPool(c.Pick(48, 431))
+	docs := vDocPool(c.ParamInt("ndocs", c.Pick(48, 431)))
 	if c.Param("docs", "") == "c07findings" {
 		// the documents of the recorded C07 findings (so that the quick tier exhibits them too)
 		want := map[string]bool{"License/BSD-Rice/license.txt": true, "License/GPL-3.0-with-autoconf-exception/license.txt": true, "License/IJG/license.txt": true,
